@@ -1,7 +1,108 @@
 //! `vh-crash` — crash-consistency engine for the file-backed linear storage (C15).
+//!
+//! * `record`: run the seeded workload on `LinearStorageProvider<FileManager>` with the I/O
+//!   recorder installed; write `trace.ndjson` (for `Trace_LinearFile`) and `crashlog.ndjson`
+//!   (for `LinearFileCrash`) into `outdir`.
+//! * `replay`: input = TLC's REPLAY records of `LinearFileCrash` sorted by `sync`; re-run the
+//!   same workload, compute the state of every completed commit from its clean image, then
+//!   materialise every crash plan, reopen it through the real open path and decide C15.
+mod export;
+mod replay;
+mod snap;
+mod workload;
+
+use vrt::{J, Value, json};
+
+fn recording(tier: &str, seed: u64) -> (workload::Recording, String) {
+    let dir = workload::scratch_dir("rec");
+    let cfg = workload::Cfg::for_tier(tier, seed);
+    let rec = workload::record(&dir, &cfg);
+    let _ = std::fs::remove_dir_all(&dir);
+    let rec = rec.unwrap_or_else(|e| vrt::die(&format!("workload failed: {e}")));
+    let mut text = String::new();
+    for v in export::crashlog(&rec, true) {
+        text.push_str(&v.to_string());
+    }
+    for s in &rec.snaps {
+        text.push_str(s);
+    }
+    let d = snap::digest(&text);
+    (rec, d)
+}
+
+fn write_ndjson(path: &str, items: &[Value]) {
+    let mut s = String::new();
+    for v in items {
+        s.push_str(&v.to_string());
+        s.push('\n');
+    }
+    std::fs::write(path, s).unwrap_or_else(|e| vrt::die(&format!("write {path}: {e}")));
+}
+
 fn main() {
     let args = vrt::Args::parse();
+    let tier = args.opt_str("workload", "quick");
+    let dense = args.opt_bool("dense");
     match args.sub.as_str() {
+        "record" => {
+            let outdir = args.opt_str("outdir", ".");
+            let (rec, d) = recording(&tier, args.seed);
+            let tr = export::trace(&rec);
+            let cl = export::crashlog(&rec, dense);
+            write_ndjson(&format!("{outdir}/trace.ndjson"), &tr);
+            write_ndjson(&format!("{outdir}/crashlog.ndjson"), &cl);
+            let writes = rec.events.iter().filter(|e| matches!(e, aranya_runtime::linear::libc::verif::IoEvent::Write { .. })).count();
+            let mut out = args.out();
+            out.ok(0, json!({"digest": d, "events": rec.events.len(), "writes": writes,
+                             "commit_calls": rec.snaps.len(), "commands": rec.ncmds.last(),
+                             "trace_len": tr.len(), "graph": rec.graph.to_string()}));
+            out.finish();
+        }
+        "replay" => {
+            let items = args.read_input();
+            let (rec, d) = recording(&tier, args.seed);
+            let want = args.opt_str("digest", "");
+            if !want.is_empty() && want != d {
+                vrt::die(&format!("workload is not reproducible: digest {d} != recorded {want}"));
+            }
+            let mut rp = replay::Replayer::new(&rec, dense, "img");
+            let mut out = args.out();
+            let mut results: Vec<Option<Value>> = vec![None; items.len()];
+            let emit = |i: usize, r: Result<Value, replay::Failure>| -> Value {
+                match r {
+                    Ok(obs) => json!({"i": i, "ok": true, "step": -1, "obs": obs}),
+                    Err(f) => json!({"i": i, "ok": false, "step": -1, "key": f.key, "msg": f.msg, "obs": f.obs}),
+                }
+            };
+            // pass 1: states of the completed commits
+            for (i, it) in items.iter().enumerate() {
+                if it.s("t") == "commit" {
+                    let r = rp.commit_state(it.u("j"), it.u("sync") as usize).unwrap_or_else(|e| vrt::die(&e));
+                    results[i] = Some(emit(i, r.map(|()| json!({"commit": it.u("j")}))));
+                }
+            }
+            // pass 2: returns and crash plans
+            rp.start_pass2();
+            for (i, it) in items.iter().enumerate() {
+                match it.s("t") {
+                    "commit" => {}
+                    "ret" => {
+                        let r = rp.check_ret(it.u("k") as usize, it.u("last"));
+                        results[i] = Some(emit(i, r.map(|()| json!({"ret": it.u("k")}))));
+                    }
+                    "plan" => {
+                        let r = rp.check_plan(it).unwrap_or_else(|e| vrt::die(&e));
+                        results[i] = Some(emit(i, r));
+                    }
+                    t => vrt::die(&format!("unknown item type {t}")),
+                }
+            }
+            rp.cleanup();
+            for r in results.into_iter().flatten() {
+                out.emit(r);
+            }
+            out.finish();
+        }
         s => vrt::die(&format!("unknown subcommand {s}")),
     }
 }
